@@ -43,6 +43,19 @@ def _track(c):
     lp.invariant("len(lines) <= old(len(lines)) - 1")
     lp.measure("len(lines)")
     lp.modifies("lines").modifies("track.indices", ("list", "opaque")).modifies("track.unparsed", ("list", "str"))
+    # C17, one entry at a time (the entry languages are written here from the cue format, not taken from the code's patterns):
+    # only an entry that BEGINS with INDEX / TITLE (any letter case) touches the track's indices / title; any other entry
+    # - REM, PERFORMER, FLAGS, PREGAP, or a line that merely MENTIONS `INDEX 01 00:00:00` or `TITLE "x"` further on - changes neither
+    IDX = r"\s*[Ii][Nn][Dd][Ee][Xx]\s+\d+\s+\d+:\d+:\d+[\s\S]*"
+    TTL = r'\s*[Tt][Ii][Tt][Ll][Ee]\s+"[^\n]*"[\s\S]*'
+    lp.step("other-entries-leave-indices-and-title-alone",
+            f"implies(not in_re(text, '{IDX}') and not in_re(text, '{TTL}'), "
+            "len(track.indices) == prev(len(track.indices)) and track.title == prev(track.title))")
+    lp.step("an-index-entry-adds-one-index-and-keeps-the-title",
+            f"implies(in_re(text, '{IDX}') and len(lines) <= prev(len(lines)), "
+            "track.title == prev(track.title) and (len(track.indices) == prev(len(track.indices)) + 1 or len(track.indices) == prev(len(track.indices))))")
+    lp.step("a-title-entry-keeps-the-indices",
+            f"implies(in_re(text, '{TTL}'), len(track.indices) == prev(len(track.indices)))")
 
 
 @contract(CUE + "CueSheetFileAdapter.parse", props=["C17", "C13"])
@@ -170,7 +183,10 @@ def _small_cue_variants(tier, seed, shard=(0, 1)):
             if k % shard[1] != shard[0]:
                 continue
             yield {"tracks": sheet, "style": style, "insert_at": (rnd.randrange(40) if k % 3 == 0 else None),
-                   "insert_text": rnd.choice(["REM x", "PERFORMER \"p\"", "  flags dcp  ", "SONGWRITER \"s\"", "rem TRACK", "CDTEXTFILE \"a.cdt\""])}
+                   "insert_text": rnd.choice(["REM x", "PERFORMER \"p\"", "  flags dcp  ", "SONGWRITER \"s\"", "rem TRACK", "CDTEXTFILE \"a.cdt\"",
+                                              # unknown lines that merely MENTION a keyword entry further on
+                                              "REM was INDEX 01 00:00:01 before remaster", "REM ORIGINAL TITLE \"Other\"", "rem index 09 11:11:11",
+                                              "PERFORMER \"TITLE \"x\"\"", "REM FILE \"other.bin\" BINARY", "ISRC TRACK01INDEX"])}
 
 
 @contract("bounded:cue_cosmetics", props=["C17"], abstract=True)
